@@ -71,7 +71,7 @@ inline size_t nLabels(const WSnap& s, const char* g) { return pStrs(s.o, g, "LAB
 inline Op opPoint(const std::string& nm, const Limits& L) {
     Op o; o.name = "point(\"" + nm + "\")"; o.cls = "point(name)";
     o.enabled = [L, nm](const World&, const WSnap& s) { if (L.noColumnsOnGaps && hasGap(s)) return false; Shape sh = declaredShape(s.o);
-        if (L.noDuplicateDeclarations) { std::string t = nm; ezc3d::removeTrailingSpaces(t); for (auto& x : sh.pts) { std::string y = x; ezc3d::removeTrailingSpaces(y); if (y == t) return false; } }
+        if (L.noDuplicateDeclarations) { std::string t = nm; vf::trimSpaces(t); for (auto& x : sh.pts) { std::string y = x; vf::trimSpaces(y); if (y == t) return false; } }
         return sh.pts.size() < L.maxPoints; };
     o.apply = [nm](World& w, const WSnap&, CallInfo& ci) { ci.kind = K_POINT_NAME; ci.name = nm; w.c->point(nm); };
     return o;
@@ -79,7 +79,7 @@ inline Op opPoint(const std::string& nm, const Limits& L) {
 inline Op opAnalog(const std::string& nm, const Limits& L) {
     Op o; o.name = "analog(\"" + nm + "\")"; o.cls = "analog(name)";
     o.enabled = [L, nm](const World&, const WSnap& s) { if (L.noColumnsOnGaps && hasGap(s)) return false; Shape sh = declaredShape(s.o);
-        if (L.noDuplicateDeclarations) { std::string t = nm; ezc3d::removeTrailingSpaces(t); for (auto& x : sh.chans) { std::string y = x; ezc3d::removeTrailingSpaces(y); if (y == t) return false; } }
+        if (L.noDuplicateDeclarations) { std::string t = nm; vf::trimSpaces(t); for (auto& x : sh.chans) { std::string y = x; vf::trimSpaces(y); if (y == t) return false; } }
         return sh.chans.size() < L.maxChans; };
     o.apply = [nm](World& w, const WSnap&, CallInfo& ci) { ci.kind = K_ANALOG_NAME; ci.name = nm; w.c->analog(nm); };
     return o;
@@ -170,7 +170,7 @@ inline Op opFrame(const std::string& dev, const std::string& tgt, int vs, const 
     };
     o.apply = [dev, tgt, vs](World& w, const WSnap& s, CallInfo& ci) {
         ci.kind = K_FRAME; ci.dev = dev; targetIdx(tgt, s.o.frames.size(), ci.append, ci.idx);
-        Shape sh = declaredShape(s.o); applyDev(sh, dev); Frame f = buildFrame(sh, vs); ci.given = snapFrame(f);
+        Shape sh = declaredShape(s.o); applyDev(sh, dev); Frame f = buildFrame(sh, vs); ci.given = intendedFrame(sh, vs);
         if (ci.append) w.c->frame(f); else w.c->frame(f, ci.idx);
     };
     return o;
@@ -182,7 +182,7 @@ inline Op opFrameFree(const std::string& what, int vs, const Limits& L) {
     o.apply = [what, vs](World& w, const WSnap& s, CallInfo& ci) {
         ci.kind = K_FRAME; ci.dev = "free:" + what; ci.append = true;
         Shape sh; if (what != "an") sh.pts = {"A", "B"}; if (what != "pt") { sh.chans = {"a"}; sh.nsub = s.o.h.subPerFrame ? s.o.h.subPerFrame : 1; }
-        Frame f = buildFrame(sh, vs); ci.given = snapFrame(f); w.c->frame(f);
+        Frame f = buildFrame(sh, vs); ci.given = intendedFrame(sh, vs); w.c->frame(f);
     };
     return o;
 }
@@ -218,7 +218,7 @@ inline Op opColPoint(const std::string& dev, int vs, const Limits& L) {
         size_t cnt = n; if (dev == "fewer") cnt = n - 1; if (dev == "more") cnt = n + 1; if (dev == "none") cnt = 0;
         std::vector<Frame> fr;
         for (size_t f = 0; f < cnt; ++f) { Shape sh; sh.pts = names; Frame x = buildFrame(sh, vs); for (size_t i = 0; i < names.size(); ++i) x.points_nonConst().point_nonConst(i).x(val(vs, i, 0) + 1000.0f * (float)(f + 1)); fr.push_back(x); }
-        for (auto& x : fr) ci.givenFrames.push_back(snapFrame(x));
+        for (size_t f = 0; f < fr.size(); ++f) { Shape sh; sh.pts = names; FrSnap in = intendedFrame(sh, vs); for (size_t i = 0; i < names.size(); ++i) in.pts[i].v[0] = fbits(val(vs, i, 0) + 1000.0f * (float)(f + 1)); ci.givenFrames.push_back(in); }
         w.c->point(fr);
     };
     return o;
@@ -253,7 +253,7 @@ inline Op opColAnalog(const std::string& dev, int vs, const Limits& L) {
             for (size_t sf = 0; sf < nsub; ++sf) for (size_t k = 0; k < names.size(); ++k) x.analogs_nonConst().subframe_nonConst(sf).channel_nonConst(k).data(aval(vs, sf, k) - 1000.0f * (float)(f + 1));
             fr.push_back(x);
         }
-        for (auto& x : fr) ci.givenFrames.push_back(snapFrame(x));
+        for (size_t f = 0; f < fr.size(); ++f) { Shape sh; sh.chans = names; sh.nsub = nsub; FrSnap in = intendedFrame(sh, vs); for (size_t sf = 0; sf < nsub; ++sf) for (size_t k = 0; k < names.size(); ++k) in.subs[sf][k].v = fbits(aval(vs, sf, k) - 1000.0f * (float)(f + 1)); ci.givenFrames.push_back(in); }
         w.c->analog(fr);
     };
     return o;
@@ -290,7 +290,7 @@ inline Op opPrint() {
 inline Op opRegBuild(int r, int vs) {
     Op o; o.name = "R" + std::to_string(r) + "=build(v" + std::to_string(vs) + ")"; o.cls = "reg.build";
     o.enabled = [](const World&, const WSnap& s) { Shape sh = declaredShape(s.o); return !(sh.pts.empty() && sh.nsub == 0); };
-    o.apply = [r, vs](World& w, const WSnap& s, CallInfo& ci) { ci.kind = K_REG_BUILD; ci.reg = r; w.R[r] = buildFrame(declaredShape(s.o), vs); w.Rset[r] = true; };
+    o.apply = [r, vs](World& w, const WSnap& s, CallInfo& ci) { ci.kind = K_REG_BUILD; ci.reg = r; w.R[r] = buildFrame(declaredShape(s.o), vs); w.Rset[r] = true; ci.given = intendedFrame(declaredShape(s.o), vs); ci.dev = "intent"; };
     return o;
 }
 inline Op opRegCopy(int r, int from) {   // R1 = R0 (C++ copy of a Frame: what a user does when reusing a frame object)
@@ -342,6 +342,20 @@ inline Op opEditStored(size_t fi, const std::string& what) {   // edit a stored 
         ci.kind = K_EDIT_STORED; ci.editFrame = fi;
         if (what == "px") w.c->data().frame(fi).points_nonConst().point_nonConst(0).x(-777.5f);
         else w.c->data().frame(fi).analogs_nonConst().subframe_nonConst(0).channel_nonConst(0).data(-888.5f);
+    };
+    return o;
+}
+// the caller hands a frame that lives INSIDE the object (a reference to a stored frame) back to the object
+inline Op opSubmitStored(size_t fi, const std::string& tgt, const Limits& L) {
+    Op o; o.name = "frame(stored[" + std::to_string(fi) + "]," + tgt + ")"; o.cls = "frame(self)";
+    o.enabled = [fi, tgt, L](const World&, const WSnap& s) {
+        if (fi >= s.o.frames.size() || s.o.frames[fi].empty()) return false; bool app; size_t idx; if (!targetIdx(tgt, s.o.frames.size(), app, idx)) return false;
+        return framesAfter(app, idx, s.o.frames.size()) <= L.maxFrames;
+    };
+    o.apply = [fi, tgt](World& w, const WSnap& s, CallInfo& ci) {
+        ci.kind = K_FRAME; ci.dev = "self"; targetIdx(tgt, s.o.frames.size(), ci.append, ci.idx); ci.given = s.o.frames[fi];
+        const Frame& ref = w.c->data().frame(fi);
+        if (ci.append) w.c->frame(ref); else w.c->frame(ref, ci.idx);
     };
     return o;
 }
